@@ -555,6 +555,58 @@ theorem iter_optPass {db : Db} (hdb : DbOK db) : ∀ (n : Nat) (p : Plan), p.ok 
     simp only [iter]
     exact ⟨ih.1, by rw [ih.2, optPass_bag hdb p h]⟩
 
+/-! ### the rules keep `NoRetractions` -/
+theorem wrapFilter_noRetr (ps : List SExpr) (p : Plan) : (wrapFilter ps p).noRetr = p.noRetr := by
+  unfold wrapFilter; split <;> rfl
+
+theorem ruleMerge_noRetr (db : Db) (c : Nat) (p : Plan) : (ruleMerge db c p).noRetr = p.noRetr := by
+  unfold ruleMerge; split <;> rfl
+
+theorem ruleLookup_noRetr (db : Db) (c : Nat) (p : Plan) : (ruleLookup db c p).noRetr = p.noRetr := by
+  unfold ruleLookup; split <;> rfl
+
+theorem ruleBranch_noRetr (db : Db) (c : Nat) (p : Plan) : (ruleBranch db c p).noRetr = p.noRetr := by
+  unfold ruleBranch
+  split
+  · simp only
+    split
+    · rfl
+    · simp only [wrapFilter_noRetr, Plan.noRetr]
+  · rfl
+
+theorem ruleKey_noRetr (db : Db) (c : Nat) (p : Plan) : (ruleKey db c p).noRetr = p.noRetr := by
+  unfold ruleKey
+  split
+  · simp only
+    split
+    · rfl
+    · simp only [wrapFilter_noRetr, Plan.noRetr]
+  · rfl
+
+theorem transform_noRetr (db : Db) (f : Db → Nat → Plan → Plan) (hf : ∀ c p, (f db c p).noRetr = p.noRetr) :
+    ∀ (p : Plan) (c : Nat), (transform db f c p).noRetr = p.noRetr := by
+  intro p
+  induction p with
+  | scan i => intro c; simp only [transform, hf]
+  | filter q s ih => intro c; simp only [transform, hf, Plan.noRetr, ih]
+  | map es s ih => intro c; simp only [transform, hf, Plan.noRetr, ih]
+  | streamJoin kl kr l r ihl ihr => intro c; simp only [transform, hf, Plan.noRetr, ihl, ihr]
+  | outerJoin a b kl kr l r ihl ihr => intro c; simp only [transform, hf, Plan.noRetr, ihl, ihr]
+  | lookupJoin s j _ _ => intro c; simp only [transform, hf, Plan.noRetr]
+
+theorem optPass_noRetr (db : Db) (p : Plan) : (optPass db p).noRetr = p.noRetr := by
+  unfold optPass
+  rw [transform_noRetr db _ (ruleMerge_noRetr db), transform_noRetr db _ (ruleKey_noRetr db),
+    transform_noRetr db _ (ruleBranch_noRetr db), transform_noRetr db _ (ruleLookup_noRetr db)]
+
+theorem iter_noRetr (db : Db) : ∀ (n : Nat) (p : Plan), (iter (optPass db) n p).noRetr = p.noRetr
+  | 0, _ => rfl
+  | n + 1, p => by simp only [iter, iter_noRetr db n, optPass_noRetr]
+
+/-- the flag the sinks consult is the flag of the plan that is run -/
+theorem optimize_noRetr (db : Db) (p : Plan) (h : p.noRetr = true) : (optimize db p).noRetr = true := by
+  unfold optimize; rw [iter_noRetr]; exact h
+
 /-- **the optimizer does not change what a plan computes** (read relationally; same list of rows) -/
 theorem optimize_planBag {db : Db} (hdb : DbOK db) (p : Plan) (h : p.ok = true) :
     planBag db (optimize db p) [] = planBag db p [] := (iter_optPass hdb _ p h).2
